@@ -66,6 +66,13 @@ def gen_vparse(tier, rng):
         add('1.2.3-' + 'a' * (L - 6)); add('1.2.3' + 'a' * (L - 5)); add('1.2.3+' + 'b' * (L - 6))
         add('1.2.3-' + 'a' * (L - 8) + 'é'); add('1.2.3-' + 'a' * (L - 9) + '\U0001F600'); add(' ' * (L - 5) + '1.2.3'); add('1.2.3' + ' ' * (L - 5))
         add('1.2.3-' + '.'.join(['ab'] * ((L - 6) // 3)))
+    # over-long inputs whose error position lies after newlines (line/column arithmetic of location())
+    for L in (257, 263, 300):
+        body = 'a' * (L - 6)
+        for tail in ['\nz', '\n\nab', '\r\n\u00e9\u00e9x', '\n', 'x\n', '\n\U0001F600', '\nab\ncd\n\u00e9']:
+            add('1.2.3-' + body + tail)
+        for k in (1, 5, L // 2, L - 8):
+            add('1.2.3-' + body[:k] + '\n' + body[k:]); add('1.2.3-' + body[:k] + '\n\u00e9\n' + body[k:]); add('\n' * k + body)
     # numbers around MAX_SAFE_INTEGER and 2^64, at each position
     for n in [MAX - 1, MAX, MAX + 1, U64 - 1, U64, U64 + 1, 10 ** 20, 10 ** 30, int('9' * 40)]:
         for pat in ['%d.2.3', '1.%d.3', '1.2.%d', '1.2.3-%d', '1.2.3+%d', '1.2.3-a.%d', 'v %d.2.3', '1.2.%d-rc', '\n1.%d.3', '1.2.3\n.%d']:
